@@ -15,7 +15,17 @@ def run_time_property(res, need_after, tag):
     if not (res.proof_ok and res.corr_ok):
         mult *= 5
     hs = [timegen.history(rng, need_after) for _ in range(1500 * mult)]
+    # live starts (C17): the handler is created with the wall clock's "now" and the first observations lie earlier or
+    # later in the current week; skipped when a constellation's week changes within the next half hour
+    import time as _time
+    live = set()
+    now = _time.time_ns()
+    if not need_after and all(timegen.week_start(c, now) == timegen.week_start(c, now + 1800 * timegen.NS) for c in timegen.CONS):
+        for _ in range(40 * mult):
+            live.add(len(hs))
+            hs.append(timegen.history(rng, need_after, T=now))
     spec_cases = ["histspec %d %d %s" % (1 if need_after else 0, T, " ".join(evs)) for T, evs in hs if evs]
+    live = set(k for k, i in enumerate(i for i, h in enumerate(hs) if h[1]) if i in live)
     hs = [h for h in hs if h[1]]
     spec, e = common.run_lines(common.MODEL_BIN, "histspec", spec_cases)
     if e or spec is None or len(spec) != len(spec_cases):
@@ -23,7 +33,7 @@ def run_time_property(res, need_after, tag):
         res.corr_notes.append("histspec failed: %s" % e)
         return res.finish()
     cases, meta = [], []
-    for (T, evs), line in zip(hs, spec):
+    for hidx, ((T, evs), line) in enumerate(zip(hs, spec)):
         parts = dict(p.split("=", 1) for p in line.split(" "))
         if parts["adm"] != "1":
             res.count("inadmissible-dropped")
@@ -31,7 +41,10 @@ def run_time_property(res, need_after, tag):
         for mode in ("getmsg", "stream"):
             tz = rng.choice([0, 0, 3600, -18000, 19800, 3 * 3600])
             lvl = rng.choice(["debug", "info"])
-            cases.append("hist %d %s %s %s %d" % (T, lvl, mode, parts["frames"], tz))
+            frames_hex = timegen.restamp_stations(rng, parts["frames"]) if rng.random() < 0.5 else parts["frames"]
+            cases.append("hist %d %s %s %s %d%s" % (T, lvl, mode, frames_hex, tz, " live" if hidx in live else ""))
+            if hidx in live:
+                res.count("live start: handler created with the wall clock's now")
             meta.append((T, evs, parts["exp"].split(";"), mode))
     impl, model = framing.run_both(res, "hist", cases)
     if impl:
